@@ -28,7 +28,9 @@ Next ==
   \/ (nextAid < MaxTrials /\ \E ok \in B : CSet(nextAid, ok) /\ Fresh)
   \/ (\E ok \in B, keep \in B : (keep => Stale) /\ CSetEval(ok, keep) /\ Same)
   \/ (CSetEnd /\ Same)
-  \/ (phase = "built" /\ FitStart(Pat, FALSE, own # -1) /\ Same)
+  \/ (\E k \in 0..(NP - 1), ok \in B : CJacDeriv(k, ok) /\ Same)
+  \/ (CJacEnd /\ Same)
+  \/ (phase \in {"built", "done"} /\ FitStart(Pat, FALSE, own # -1) /\ Same)
   \/ (\E k \in 0..(NP - 1), ok \in B : Deriv(k, ok) /\ Same)
   \/ (nextAid < MaxTrials /\ nfev < Pat * (NP + 1) /\ \E ok \in B : TrialSet(nextAid, ok) /\ Fresh)
   \/ (\E ok \in B : EvalAfterFailedSet(ok) /\ Same)
